@@ -1643,17 +1643,21 @@ _COMPONENTS = {
 }
 EVIDENCE = {
     "C05": {"components": _COMPONENTS, "assumptions": [
+        "excluded: masks assigned as integer arrays (fancy indexing instead of boolean selection), mixed-case distribution names",
         "per-window peaks are taken from the public HvsrCurve API under the object's current range (peak finding is C08's business)",
         "states with fewer than two accepted windows or peaks are outside the property's domain and counted as trivial",
         "the rebuilt-from-accepted comparison is made only when every accepted window has a peak and both masks agree",
         "no storage, clock or scheduling fault applies to this property; the simulator owns the operation history"]},
     "C06": {"components": _COMPONENTS, "assumptions": [
+        "excluded: n / max_iterations given as small numpy integer types that overflow (np.uint8(2), np.int8(127)), states in which the "
+        "accepted set shrinks below two peaks (the published algorithm does not define them; counted as degenerate)",
         "entry state = deep copy of the object after its own public update_peaks_bounded call with the operation's arguments",
         "float ties (peak within 1e-9 of a bound, convergence quantity within 1e-9 of 0.01, a zero-tested quantity below 1e-12, "
         "near-equal maxima of the mean curve) are counted (probe fdwra_float_tie) but the refinement is not judged there",
         "custom find_peaks kwargs and entry states with unequal masks are not refined (always-on invariants still apply)",
         "no fault kind applies to this property"]},
     "C08": {"components": _COMPONENTS, "assumptions": [
+        "excluded: descending frequency grids, a search range given as an ndarray, invalid find_peaks kwargs (an update that raises)",
         "'strictly inside the range' is judged so that both the snapped-to-grid and the in-hertz reading accept the verdict "
         "(models/peaks.py: required = inside under both readings, allowed = inside under either)",
         "with custom find_peaks kwargs only 'is an interior local maximum with the curve's amplitude' is judged",
@@ -1663,10 +1667,15 @@ EVIDENCE = {
         "every azimuth has an accepted window and both masks have equal counts",
         "no fault kind applies to this property"]},
     "C12": {"components": _COMPONENTS, "assumptions": [
+        "excluded: duplicated adjacent azimuth values (the file keys curves by the printed azimuth), members whose frequency vectors "
+        "differ within np.allclose, members updated on their own right before a write (probe members_out_of_step_at_write), "
+        "file names with a compression suffix; the entry 'processing_method' may be added to the meta by the writer",
         "azimuth values are distinct and have a plain decimal representation (the file format keys curves by the printed azimuth)",
         "a torn file left by a failed or crashed write is probe-counted, not judged (the property speaks of completed writes)",
         "under an injected write/read fault the call must raise, leave the object unchanged, and one retry must succeed"]},
     "C13": {"components": _COMPONENTS, "assumptions": [
+        "excluded: sta_seconds shorter than one sample, all-zero components (NaN ratios), an attached object whose window count differs "
+        "from the number of windows, generators as the window list of maximum_value_window_rejection (it needs len())",
         "what the simulator owns here is the history of the attached result object (range updates, frequency-domain / manual "
         "rejections, mask edits, earlier time-domain rejections) and the identity/order/container of the window list; the "
         "per-window verdict is judged only where the property speaks ('clearly' inside/outside: farther than 1e-6 relative "
